@@ -23,7 +23,8 @@ LEVEL_TEXT = (
     "Generated histories of server requests (in-order streams through a lossy / duplicating / reordering channel, counters chosen "
     "relative to the expected one, arbitrary counters, runs over the 255->0 wrap, server-initiated disconnects, gaps around the "
     "2 s out-of-order timer) are delivered to the real UDPTunnel, to the real DeviceManagement handler on a real UDPTransport and "
-    "to the real UDPDeviceManagementConnection, all on the virtual loop. Every frame carries a unique tag. Exploration: histories are "
+    "to the real UDPDeviceManagementConnection, each with route_back on and off and with the server announcing its data endpoint "
+    "as an address or as the route-back HPAI, all on the virtual loop. Every frame carries a unique tag. Exploration: histories are "
     "sampled, the automaton is small and every (verdict, position-in-epoch class, endpoint) combination is counted."
 )
 LEVEL_NOTE = (
@@ -32,7 +33,8 @@ LEVEL_NOTE = (
     "callback, how often and in which order. Frames are only injected while the server regards the connection as established "
     "(after its ConnectResponse was delivered, before either side sent a DisconnectRequest): the statement does not cover frames "
     "during a handshake. Not judged: order of ACK vs. callback, the tunnel's own 2 s reconnect shortcut (only that the counter "
-    "restarts at 0 on the connection that follows), frames for another communication channel (not injected)."
+    "restarts at 0 on the connection that follows), frames for another communication channel (not injected), the "
+    "address an ACK is sent to (recorded against the data endpoint announced per connection)."
 )
 SHARDS = {"quick": 1, "thorough": 16}
 TIMEOUT = {"quick": 300, "thorough": 3000}
@@ -140,10 +142,11 @@ class Ref:
         return "O"
 
 
-def run_history(kind, ops):
+def run_history(kind, ops, route_back=False, gw_route_back=False):
     """Deliver one history to the real endpoint; returns (injections, acks, callbacks, error, log)."""
     loop = new_loop()
     gw = Gateway(loop)
+    gw.data_endpoint_route_back = gw_route_back
     ref = Ref()
     injections = []
     box = {"tag": 0}
@@ -185,11 +188,11 @@ def run_history(kind, ops):
         reconnect = None
         if kind == "tunnel":
             ep = UDPTunnel(XKNX(), cemi_received_callback=cb_raw, gateway_ip="10.0.0.2", gateway_port=3671,
-                           local_ip="10.0.0.1", auto_reconnect=True, auto_reconnect_wait=1)
+                           local_ip="10.0.0.1", route_back=route_back, auto_reconnect=True, auto_reconnect_wait=1)
             await ep.connect()
         elif kind == "devconn":
             ep = UDPDeviceManagementConnection(gateway_ip="10.0.0.2", gateway_port=3671, local_ip="10.0.0.1",
-                                               indication_callback=cb_ind)
+                                               route_back=route_back, indication_callback=cb_ind)
             await ep.connect()
 
             async def reconnect():
@@ -203,7 +206,8 @@ def run_history(kind, ops):
             await transport.connect()
             gw.transport = loop.datagram_transports[-1]
             gw.channel = 33
-            ep = DeviceManagement(transport=transport, communication_channel=33, cemi_received_callback=cb_raw)
+            ep = DeviceManagement(transport=transport, communication_channel=33, cemi_received_callback=cb_raw,
+                                  data_endpoint=None if gw_route_back else ("10.0.0.2", 3671))
             ep.start()
             ref.new_connection()
 
@@ -276,6 +280,18 @@ def run_history(kind, ops):
     finally:
         loop.finish()
     acks = [(t, info["ch"], info["seq"], info["status"]) for t, k, info in gw.log if k == "tx" and info.get("type") == ack_type]
+    # recorded only: is an ACK addressed to the data endpoint the server announced for that connection?
+    box["ack_elsewhere"] = box["ack_to_endpoint"] = 0
+    endpoint = None
+    for t, k, info in gw.log:
+        if k == "rx" and info.get("type") == "ConnectResponse":
+            endpoint = ("10.0.0.2", 3671 + (info["ch"] & 1)) if not gw_route_back else ("10.0.0.2", 3671)
+        elif k == "tx" and info.get("type") == ack_type and endpoint is not None and kind != "devmgmt":
+            if tuple(info.get("to", ())) == endpoint:
+                box["ack_to_endpoint"] += 1
+            else:
+                box["ack_elsewhere"] += 1
+    gw.log.append((0.0, "ack_addressing", {"to_endpoint": box["ack_to_endpoint"], "elsewhere": box["ack_elsewhere"]}))
     cbs = [(t, info["tag"]) for t, k, info in gw.log if k == "cb"]
     return injections, acks, cbs, err, gw.log, loop.exceptions
 
@@ -321,16 +337,21 @@ def judge(injections, acks, cbs):
     return problems
 
 
-def judge_history(ctx, kind, profile, ops, sample=False):
+def judge_history(ctx, kind, profile, ops, sample=False, route_back=False, gw_route_back=False):
     ctx.ev()
-    injections, acks, cbs, err, log, excs = run_history(kind, ops)
+    injections, acks, cbs, err, log, excs = run_history(kind, ops, route_back, gw_route_back)
     if err is not None:
         ctx.inconclusive(f"{kind} history did not finish: {err}")
         return
     ctx.count(f"histories_{kind}")
+    cfg = f"{'rb' if route_back else 'hpai'}_{'gwrb' if gw_route_back else 'gwhpai'}"
+    ctx.count(f"histories_{kind}_{cfg}")
     ctx.count("frames_injected", len(injections))
     ctx.count("acks_observed", len(acks))
     ctx.count("frames_passed_up", len(cbs))
+    addressing = log[-1][2] if log and log[-1][1] == "ack_addressing" else {}
+    ctx.count("acks_sent_to_announced_data_endpoint_recorded", addressing.get("to_endpoint", 0))
+    ctx.count("acks_sent_elsewhere_recorded", addressing.get("elsewhere", 0))
     if excs:
         ctx.count("loop_exceptions_recorded", len(excs))
     epochs = max([inj["epoch"] for inj in injections], default=0)
@@ -341,9 +362,12 @@ def judge_history(ctx, kind, profile, ops, sample=False):
             ctx.count(f"wrap_{inj['verdict']}")
         if inj["pos"] == "first" and inj["epoch"] > 1:
             ctx.count(f"first_after_reconnect_{inj['verdict']}")
-    ctx.distinct((kind, "".join(inj["verdict"] if inj["pos"] == "later" else inj["verdict"].lower() for inj in injections)))
+            if kind != "devmgmt":
+                ctx.count(f"first_after_reconnect_{kind}_{'rb' if route_back else 'hpai'}")
+    ctx.distinct((kind, route_back, gw_route_back, "".join(inj["verdict"] if inj["pos"] == "later" else inj["verdict"].lower() for inj in injections)))
     if sample:
-        ctx.sample({"endpoint": kind, "profile": profile, "ops": ops[:25],
+        ctx.sample({"endpoint": kind, "route_back": route_back, "gateway_data_endpoint_route_back": gw_route_back,
+                    "profile": profile, "ops": ops[:25],
                     "frames": [(inj["c"], inj["verdict"]) for inj in injections[:25]]}, cap=6)
     seen = set()
     for mech, detail in judge(injections, acks, cbs):
@@ -352,6 +376,7 @@ def judge_history(ctx, kind, profile, ops, sample=False):
         seen.add(mech)
         short = [(inj["epoch"], inj["c"], inj["verdict"]) for inj in injections]
         ctx.violation(f"{kind}-{mech}", {"endpoint": kind, "profile": profile, "ops": ops, "detail": detail,
+                                          "route_back": route_back, "gw_route_back": gw_route_back,
                                           "frames(epoch,counter,verdict)": short[:400]},
                       f"{kind}: {mech}: {str(detail)[:400]}")
 
@@ -359,21 +384,26 @@ def judge_history(ctx, kind, profile, ops, sample=False):
 def run(ctx):
     n = ctx.scale(420, 10000)
     ctx.rule = (f"{n} generated histories (profiles lossy/adversarial/wrap/mixed, 20-80 ops, gaps around the 2 s timer) spread over "
-                f"{KINDS}; distinct = (endpoint, string of reference verdicts with the first frame of each connection marked)")
+                f"{KINDS} x client route_back on/off x server data endpoint as address / route-back HPAI; distinct = (endpoint, string of reference verdicts with the first frame of each connection marked)")
     ctx.require("frames_injected", "acks_observed", "frames_passed_up",
                 *(f"verdict_{v}_{k}" for v in "ERO" for k in KINDS),
-                "wrap_E", "wrap_R", "first_after_reconnect_E", "first_after_reconnect_O", "connection_epochs")
+                "wrap_E", "wrap_R", "first_after_reconnect_E", "first_after_reconnect_O", "connection_epochs",
+                "first_after_reconnect_tunnel_rb", "first_after_reconnect_tunnel_hpai", "first_after_reconnect_devconn_rb",
+                "first_after_reconnect_devconn_hpai")
     rng = ctx.rng
     for i in range(n):
         kind = KINDS[i % 3]
+        # configuration dimension: client route_back x server data endpoint given as route-back HPAI
+        route_back, gw_route_back = bool((i // 3) & 1), bool((i // 6) & 1)
         profile, ops = gen_history(rng, kind, rng.randint(20, 80))
         if not ctx.mine(i):
             continue
-        judge_history(ctx, kind, profile, ops, sample=i < 6)
+        judge_history(ctx, kind, profile, ops, sample=i < 6, route_back=route_back, gw_route_back=gw_route_back)
 
 
 def replay(ctx, witness):
     ctx.rule = "replay of one recorded history"
-    judge_history(ctx, witness["endpoint"], witness["profile"], witness["ops"])
+    judge_history(ctx, witness["endpoint"], witness["profile"], witness["ops"],
+                  route_back=bool(witness.get("route_back")), gw_route_back=bool(witness.get("gw_route_back")))
     ctx.distinct("replay")
     ctx.distinct("replay2")
